@@ -502,7 +502,7 @@ CHECKS = {
         'drift domain: content edits, deletion, cache-label removal, revision-annotation removal of managed objects (owner edits are takeovers, see C01)'],
         jobs=lambda tier, seed: [
             dict(name='fault-sweep', shards=8 if tier == 'quick' else 14,
-                 driver=['fault-sweep', '-n', '60' if tier == 'quick' else '0', '-seed', str(seed)]),
+                 driver=['fault-sweep', '-n', '60' if tier == 'quick' else '400', '-seed', str(seed)]),
             dict(name='fault-pairs', shards=4 if tier == 'quick' else 14,
                  driver=['fault-sweep', '-mode', 'pairs', '-n', '20' if tier == 'quick' else '400', '-seed', str(seed)]),
             # states no event leads out of (refused adoption, preflight error) persisting over several passes: is the retry armed every time?
